@@ -579,6 +579,12 @@ func (p Function) endDefer(b Builder) {
 	copy(rethsNext[1:], blks)
 	rethsNext[0] = rethrowBlk
 	rethsNext[n] = procBlk
+	if n == 0 {
+		// A frame without any defer statement or drain point (pushed for
+		// ssa:deferstack when the range-over-func loop itself is unreachable):
+		// the epilogue below still belongs to procBlk.
+		b.SetBlockEx(procBlk, AtEnd, true)
+	}
 
 	for i := n - 1; i >= 0; i-- {
 		rethNext := rethsNext[i]
